@@ -318,7 +318,11 @@ func buildCanvas(c Case) *canvas.Canvas {
 const dpmm = 4.0
 
 func raster(cv *canvas.Canvas) *image.RGBA {
-	return rasterizer.Draw(cv, canvas.DPMM(dpmm), canvas.LinearColorSpace{})
+	return rasterAt(cv, dpmm)
+}
+
+func rasterAt(cv *canvas.Canvas, d float64) *image.RGBA {
+	return rasterizer.Draw(cv, canvas.DPMM(d), canvas.LinearColorSpace{})
 }
 
 // toCanvas replays a display list on a fresh canvas; the library's rasterizer is then only the common measuring device for the reference and for what the back-end's output means.
